@@ -337,10 +337,51 @@ def run(ctx, report: Report) -> None:
     from .e2ematch import range_pipeline_table
     range_pipeline_table(ctx, r8)
 
+    # valid number strings at the edges of the float range are values like any other (bounded, by interpretation)
+    number_edge_table(ctx, r6)
+
     # ---- R9 (Inputs.parse_value by interpretation; every year of the 400-year cycle) ------------------------------------------------
     r9 = report.rule('C18-R9', 'week strings: weeks 1-52 of every year and week 53 of the ISO long years are valid, weeks 0 and 54 never', floor=400)
     week_count_table(ctx, r9)
 
+
+
+def number_edge_table(ctx, rule):
+    """Inputs.parse_value('number' / 'range', s) by interpretation for valid floating-point number strings whose conversion
+    overflows, underflows or is a signed zero: each is a value (not None), and values are ordered as the numbers are."""
+    from ..interp import Raised, call_function
+    valid = ['0', '-0', '1', '-1', '.5', '-.5', '1.5', '1e3', '1E3', '1e+3', '1e-3', '1.5e3', '-.5e-3', '1e308', '1.7976931348623157e308', '1e309', '1e400', '-1e400',
+             '2E308', '-1e999', '1e-400', '-1e-400', '4.9e-324', '1' + '0' * 400, '-1' + '0' * 400, '0.' + '0' * 400 + '1', '9' * 309, '00012', '1e00003']
+    invalid = ['', '+1', '1.', 'e3', '1e', '1e+', '.', '-', '--1', '1 ', ' 1', '1_0', 'inf', 'nan', 'Infinity', '0x10', '1,5', '١']
+    opts = {'regex_engine': True, 'max_steps': 2_000_000}
+    bad = None
+    parsed = {}
+    for itype in ('number', 'range'):
+        for text in valid + invalid:
+            try:
+                res = call_function(ctx, 'css_match.Inputs.parse_value', [itype, text], {}, {}, None, dict(opts))
+                got = None if res is None else tuple(res)
+            except Raised as e:
+                got = f'raises {e.exc_name}'
+            except miniev.Unsupported as e:
+                raise AnalysisError(f'Inputs.parse_value({itype!r}, {text[:20]!r}): outside the evaluable fragment: {e}')
+            want_valid = text in valid
+            ok = (isinstance(got, tuple) and len(got) == 1 and isinstance(got[0], (int, float))) if want_valid else got is None
+            if ok and want_valid:
+                ok = got[0] == float(text)
+                parsed[(itype, text)] = got
+            rule.instance({'type': itype, 'value_string': text[:24] + ('...' if len(text) > 24 else ''), 'valid_number_string': want_valid, 'parsed': repr(got)[:40]},
+                          key=f'number-edge|{itype}|{text[:30]}|{len(text)}', sample_cap=4)
+            if not ok and bad is None:
+                bad = (itype, text, got, want_valid)
+    rule.obligation(bad is None)
+    if bad is not None:
+        itype, text, got, want_valid = bad
+        shown = text if len(text) < 30 else text[:12] + f'... ({len(text)} characters)'
+        rule.violation(f'number string {shown}', 'soupsieve/css_match.py (Inputs.parse_value)',
+                       (f'the valid floating-point number string {shown!r} of an input of type {itype} is parsed as {got!r}; it is a value (float({shown!r}) = '
+                        f'{float(text)!r}) that min / max / value comparisons must see') if want_valid else
+                       f'the invalid number string {shown!r} of an input of type {itype} is accepted as {got!r}')
 
 
 def iso_long_year(y: int) -> bool:
